@@ -59,6 +59,10 @@ func runBlockCase(c *core.Ctx, rng *rand.Rand) {
 		}
 		blockRound(c, nf, ss)
 	}
+	// round 12: the position mapping the file loader reads these blocks through
+	for k := 0; k < 12; k++ {
+		iterRandom(c, rng)
+	}
 }
 
 func blockRound(c *core.Ctx, nf int, ss []blkSeries) {
